@@ -178,6 +178,10 @@ CATALOGUE = [
                 setattr(self, accessor_name, colors_conf.get_color(synt_id))
 """, note="a synced palette is refreshed only the first time it meets a configuration"),
     # ------------------------------------------------------------------ C08
+    dict(id="m08_subclass_operand", prop="C08", file="ak/color.py",
+         old="        elif isinstance(other, CHText):\n            # (any CHText: an object of a derived class",
+         new="        elif isinstance(other, type(self)):\n            # (any CHText: an object of a derived class",
+         note="the original defect (fixed in /repo): a text of a derived class converts a base-class operand with str()"),
     dict(id="m08_fixed_len_self", prop="C08", file="ak/color.py",
          old="        return type(self)(self)  # the result must not share state with self\n",
          new="        return self\n", note="the original defect (fixed in /repo)"),
